@@ -207,7 +207,7 @@ Section InitOk.
   Variable R : registry.
   Variable clean : cleaner.
   Variable strictext : bool.
-  Hypothesis Hclean : forall io n v, ok V (clean io n v).
+  Hypothesis Hclean : forall ac io s ov, ok V (clean ac io s ov).
 
   Lemma ok_scan_entries : forall hasext m tl unreg, ok V (scan_entries V R strictext hasext m tl unreg).
   Proof.
@@ -229,7 +229,7 @@ Section InitOk.
   Lemma ok_check_ref : forall vr, ok V (check_ref vr).
   Proof. intros. unfold check_ref. repeat okstep. Qed.
 
-  Lemma ok_check_slot : forall io kind vr s val, ok V (check_slot clean io kind vr s val).
+  Lemma ok_check_slot : forall ac io kind vr s val, ok V (check_slot clean ac io kind vr s val).
   Proof.
     intros. unfold check_slot.
     destruct val.
@@ -238,10 +238,10 @@ Section InitOk.
       apply ok_seq; [apply Hclean|]. destruct kind; destruct (s_ref s); repeat okstep; apply ok_check_ref.
   Qed.
 
-  Lemma ok_prop_loop : forall io kind vr defined assigned order present,
-    ok V (prop_loop clean io kind vr defined assigned order present).
+  Lemma ok_prop_loop : forall ac io kind vr defined assigned order present,
+    ok V (prop_loop clean ac io kind vr defined assigned order present).
   Proof.
-    intros io kind vr defined assigned. induction order as [|n rest IH]; intros; simpl; [apply ok_ret|].
+    intros ac io kind vr defined assigned. induction order as [|n rest IH]; intros; simpl; [apply ok_ret|].
     destruct (find_slot n defined); [|apply IH].
     apply ok_bind; [apply ok_check_slot|intros; apply IH].
   Qed.
@@ -297,7 +297,7 @@ Section ParseOk.
   Variable clean : cleaner.
   Variable strictext : bool.
   Variable refuse : bool.
-  Hypothesis Hclean : forall io n v, ok V (clean io n v).
+  Hypothesis Hclean : forall ac io s ov, ok V (clean ac io s ov).
   Hypothesis HR : reg_known R = true.
 
   Lemma reg_known_parts :
@@ -452,17 +452,47 @@ End ParseOk.
 (* ------------------------------------------------------------------ *)
 (* the two cleaners                                                      *)
 
-Lemma ok_clean_any : forall V io n v, ok V (clean_any io n v).
+Lemma ok_clean_any : forall V ac io s ov, ok V (clean_any ac io s ov).
 Proof. intros. unfold clean_any. apply ok_may. repeat constructor. Qed.
 
 Lemma ok_clean_via : forall V (cl : blackbox),
-  (forall io n v e, cl io n v = CleanRaise e -> is_exception e = true) ->
-  forall io n v, ok V (clean_via cl io n v).
+  (forall ac io s ov e, cl ac io s ov = CleanRaise e -> is_exception e = true) ->
+  forall ac io s ov, ok V (clean_via cl ac io s ov).
 Proof.
-  intros V cl Hcl io n v. unfold clean_via, lift.
-  destruct (cl io n v) as [|e] eqn:E; [repeat constructor|].
-  destruct (wrapper_total_lemma e (Hcl _ _ _ _ E)) as [e' [He' Hs]]. rewrite He'.
+  intros V cl Hcl ac io s ov. unfold clean_via, lift.
+  destruct (cl ac io s ov) as [|e] eqn:E; [repeat constructor|].
+  destruct (wrapper_total_lemma e (Hcl _ _ _ _ _ E)) as [e' [He' Hs]]. rewrite He'.
   constructor; [left; apply subclass_trans_IVE_family; exact Hs|constructor].
+Qed.
+
+(* the structural cleaner: whatever the embedded construction does, the wrapper lets out Ok / InvalidValueError *)
+Lemma ok_wrap_embedded : forall V extra m, ok V (wrap_embedded extra m).
+Proof.
+  intros. unfold wrap_embedded. apply ok_app.
+  - destruct (existsb is_val m); repeat constructor.
+  - destruct (extra || existsb (fun r => negb (is_val r)) m); [|constructor]. constructor; [left; reflexivity|constructor].
+Qed.
+
+Lemma ok_clean_struct : forall fuel V R strictext classes ac io s ov, ok V (clean_struct fuel V R strictext classes ac io s ov).
+Proof.
+  intros. destruct fuel; simpl; [apply ok_may; repeat constructor|].
+  destruct ov as [v|]; [|apply ok_may; repeat constructor].
+  destruct (s_kind s); [apply ok_may; repeat constructor| |].
+  - destruct (class_named ckey classes); [|apply ok_may; repeat constructor].
+    destruct v; try (apply ok_fail; reflexivity). apply ok_wrap_embedded.
+  - destruct (class_named ckey classes); [|apply ok_may; repeat constructor].
+    destruct v; try (apply ok_fail; reflexivity).
+    assert (Hfold : forall l0, ok V (fold_right (fun (item : jvalue) (acc : M unit) =>
+              match item with
+              | JObj m => wrap_embedded (mem_key (us "custom_properties") m)
+                            (call_check m false ;;;
+                             construct V R (clean_struct fuel V R strictext classes) strictext (fun _ => TBad) c ac io m) ;;; acc
+              | _ => fail K_InvalidValueError
+              end) (ret tt) l0)).
+    { induction l0 as [|item r IH]; simpl; [apply ok_ret|].
+      destruct item; try (apply ok_fail; reflexivity).
+      apply ok_seq; [apply ok_wrap_embedded|exact IH]. }
+    destruct l as [|x l]; [apply ok_fail; reflexivity|apply Hfold].
 Qed.
 
 (* every outcome of a guarded model is in the family *)
